@@ -121,6 +121,10 @@ def tree_source(root):
             elif task["block"] == "body":
                 if task["how"] == "sleep":
                     src.add(ind, "await trio.sleep_forever()")
+                elif task["how"] == "poll":
+                    # runnable at a checkpoint, never blocked: seen parked in cancel_shielded_checkpoint
+                    src.add(ind, "while not W.gate.is_set():")
+                    src.add(ind + 1, "await trio.lowlevel.checkpoint()")
                 elif task["how"] == "thread":
                     src.add(ind, f"await trio.to_thread.run_sync(W.tpark, {tid})")
                 else:
@@ -614,6 +618,13 @@ class World:
         def check(stack, task, path, nurs_expected):
             if stack.root is not task:
                 return f"{path}: root is not the task"
+            for q, fr in enumerate(stack.frames):
+                fn = fr.pyframe.f_code.co_filename.replace("\\", "/")
+                if fn.endswith("_core/_traps.py"):
+                    if not fr.hide:
+                        return f"{path}: Trio trap plumbing ({fr.pyframe.f_code.co_name}) is visible past the blocking point"
+                    if q != len(stack.frames) - 1:
+                        return f"{path}: frames extracted inward of the trap {fr.pyframe.f_code.co_name}"
             got = [c for f in stack.frames for c in f.contexts if isinstance(c.obj, trio.Nursery)]
             if nurs_expected is not None:
                 if [id(c.obj) for c in got] != [id(n) for n in nurs_expected]:
@@ -708,6 +719,17 @@ HIDDEN = {
 }
 
 
+def count_tasks(task):
+    n, p = 1, int(task["block"] == "body" and task["how"] == "poll")
+    for fr in task["frames"]:
+        for c in fr["ctxs"]:
+            for k in c.get("kids", []):
+                a, b = count_tasks(k)
+                n += a
+                p += b
+    return n, p
+
+
 def count_thread_parked(task):
     n = int(task["block"] == "body" and task["how"] == "thread")
     for fr in task["frames"]:
@@ -759,13 +781,28 @@ def run(desc):
                 async with trio.open_nursery() as sup:
                     if desc["kind"] == "tree":
                         sup.start_soon(ns["t0_f0"], W)
-                        await trio.testing.wait_all_tasks_blocked()
+                        total, polls = count_tasks(desc["root"])
+                        if polls:
+                            # pollers are never blocked: wait, tick by tick, until every task has
+                            # started, then long enough for every other task to reach its parking
+                            # place (each Lock acquisition on the way costs one tick)
+                            for _ in range(100000):
+                                if len(W.tasks) >= total:
+                                    break
+                                await trio.sleep(0)
+                            for _ in range(60):
+                                await trio.sleep(0)
+                        else:
+                            await trio.testing.wait_all_tasks_blocked()
                         want = count_thread_parked(desc["root"])
                         while sum(1 for k in W.seg_thread if isinstance(k, tuple)) < want:
                             await trio.sleep(0.001)
                         if want:
-                            await trio.testing.wait_all_tasks_blocked()
-                            await trio.sleep(0.002)
+                            if polls:
+                                await trio.sleep(0.01)
+                            else:
+                                await trio.testing.wait_all_tasks_blocked()
+                                await trio.sleep(0.002)
                         W.start_obj = W.tasks[0]
                         W.observe()
                         release()
